@@ -1,0 +1,63 @@
+//go:build verif
+
+// Contracts for package compare, read by the verification tooling only.
+// This file holds comments and nothing else; it is compiled only with -tags verif.
+package compare
+
+//@ func As[*]
+//@   safety[C15]
+//@   ensures int[C15]:     typeis(v, int) ==> result == T(v.(int))
+//@   ensures int8[C15]:    typeis(v, int8) ==> result == T(v.(int8))
+//@   ensures int16[C15]:   typeis(v, int16) ==> result == T(v.(int16))
+//@   ensures int32[C15]:   typeis(v, int32) ==> result == T(v.(int32))
+//@   ensures int64[C15]:   typeis(v, int64) ==> result == T(v.(int64))
+//@   ensures uint[C15]:    typeis(v, uint) ==> result == T(v.(uint))
+//@   ensures uint8[C15]:   typeis(v, uint8) ==> result == T(v.(uint8))
+//@   ensures uint16[C15]:  typeis(v, uint16) ==> result == T(v.(uint16))
+//@   ensures uint32[C15]:  typeis(v, uint32) ==> result == T(v.(uint32))
+//@   ensures uint64[C15]:  typeis(v, uint64) ==> result == T(v.(uint64))
+//@   ensures float32[C15]: typeis(v, float32) ==> result == T(v.(float32))
+//@   ensures float64[C15]: typeis(v, float64) ==> result == T(v.(float64))
+//@   ensures other[C15]:   !spec.numeric(v) ==> result == 0
+//@   modifies nothing
+//@
+//@ func Cmp[*]
+//@   safety[C15]
+//@   ensures range[C15]: result == -1 || result == 0 || result == 1
+//@   ensures mathorder.int[C15,C01,C05]: typeis(b, int) && !typeis(b, T) && spec.exact(a) && spec.exact(b) ==> result == spec.sgn3(spec.val(a), spec.val(b))
+//@   ensures mathorder.int8[C15,C01,C05]: typeis(b, int8) && !typeis(b, T) && spec.exact(a) && spec.exact(b) ==> result == spec.sgn3(spec.val(a), spec.val(b))
+//@   ensures mathorder.int16[C15,C01,C05]: typeis(b, int16) && !typeis(b, T) && spec.exact(a) && spec.exact(b) ==> result == spec.sgn3(spec.val(a), spec.val(b))
+//@   ensures mathorder.int32[C15,C01,C05]: typeis(b, int32) && !typeis(b, T) && spec.exact(a) && spec.exact(b) ==> result == spec.sgn3(spec.val(a), spec.val(b))
+//@   ensures mathorder.int64[C15,C01,C05]: typeis(b, int64) && !typeis(b, T) && spec.exact(a) && spec.exact(b) ==> result == spec.sgn3(spec.val(a), spec.val(b))
+//@   ensures mathorder.uint[C15,C01,C05]: typeis(b, uint) && !typeis(b, T) && spec.exact(a) && spec.exact(b) ==> result == spec.sgn3(spec.val(a), spec.val(b))
+//@   ensures mathorder.uint8[C15,C01,C05]: typeis(b, uint8) && !typeis(b, T) && spec.exact(a) && spec.exact(b) ==> result == spec.sgn3(spec.val(a), spec.val(b))
+//@   ensures mathorder.uint16[C15,C01,C05]: typeis(b, uint16) && !typeis(b, T) && spec.exact(a) && spec.exact(b) ==> result == spec.sgn3(spec.val(a), spec.val(b))
+//@   ensures mathorder.uint32[C15,C01,C05]: typeis(b, uint32) && !typeis(b, T) && spec.exact(a) && spec.exact(b) ==> result == spec.sgn3(spec.val(a), spec.val(b))
+//@   ensures mathorder.uint64[C15,C01,C05]: typeis(b, uint64) && !typeis(b, T) && spec.exact(a) && spec.exact(b) ==> result == spec.sgn3(spec.val(a), spec.val(b))
+//@   ensures mathorder.float32[C15,C01,C05]: typeis(b, float32) && !typeis(b, T) && spec.exact(a) && spec.exact(b) ==> result == spec.sgn3(spec.val(a), spec.val(b))
+//@   ensures mathorder.float64[C15,C01,C05]: typeis(b, float64) && !typeis(b, T) && spec.exact(a) && spec.exact(b) ==> result == spec.sgn3(spec.val(a), spec.val(b))
+//@   ensures mathorder.same.lt[C15,C01,C05]: typeis(b, T) && spec.exact(a) && spec.exact(b) && spec.sgn3(spec.val(a), spec.val(b)) == -1 ==> result == -1
+//@   ensures mathorder.same.eq[C15,C01,C05]: typeis(b, T) && spec.exact(a) && spec.exact(b) && spec.sgn3(spec.val(a), spec.val(b)) == 0 ==> result == 0
+//@   ensures mathorder.same.gt[C15,C01,C05]: typeis(b, T) && spec.exact(a) && spec.exact(b) && spec.sgn3(spec.val(a), spec.val(b)) == 1 ==> result == 1
+//@   modifies nothing
+//@
+//@ func compare[*]
+//@   safety[C15]
+//@   ensures range[C15]: result == -1 || result == 0 || result == 1
+//@   ensures num[C15]: spec.numeric(v) && spec.exact(a) && spec.exact(v) ==> result == spec.sgn3(spec.val(a), spec.val(v))
+//@   ensures text[C15]: !spec.numeric(v) ==> result == spec.cmp3(spec.FmtV(a), spec.FmtV(v))
+//@   modifies nothing
+//@
+//@ func Compare
+//@   safety[C15]
+//@   ensures range[C15]: result == -1 || result == 0 || result == 1
+//@   ensures order[C15,C01,C05]: (spec.numeric(a) ==> spec.exact(a)) && (spec.numeric(b) ==> spec.exact(b)) ==> result == spec.CompareSpec(a, b)
+//@   modifies nothing
+//@
+//@ lemma reflexive[C15]: (forall ((a Any)) (=> (=> (spec!numeric a) (spec!exact a)) (= (spec!CompareSpec a a) #x0000000000000000)))
+//@ lemma antisymmetric[C15]: (forall ((a Any) (b Any)) (=> (and (=> (spec!numeric a) (spec!exact a)) (=> (spec!numeric b) (spec!exact b))) (= (spec!CompareSpec a b) (bvneg (spec!CompareSpec b a)))))
+//@ lemma transitive-numbers[C15]: (forall ((a Any) (b Any) (c Any)) (=> (and (spec!numeric a) (spec!numeric b) (spec!numeric c) (spec!exact a) (spec!exact b) (spec!exact c) (bvsle (spec!CompareSpec a b) #x0000000000000000) (bvsle (spec!CompareSpec b c) #x0000000000000000)) (bvsle (spec!CompareSpec a c) #x0000000000000000)))
+//@ lemma transitive-text[C15]: (forall ((a Any) (b Any) (c Any)) (=> (and (not (spec!numeric a)) (not (spec!numeric b)) (not (spec!numeric c)) (bvsle (spec!CompareSpec a b) #x0000000000000000) (bvsle (spec!CompareSpec b c) #x0000000000000000)) (bvsle (spec!CompareSpec a c) #x0000000000000000)))
+//@ lemma strings-bytewise[C15]: (forall ((s Str) (t Str)) (= (spec!CompareSpec (a!string s) (a!string t)) (spec!cmp3 s t)))
+//@ lemma value-not-representation[C15]: (= (spec!CompareSpec (a!int #x0000000000000001) (a!float64 ((_ to_fp 11 53) RNE 1.5))) #xffffffffffffffff)
+//@ lemma negative-below-unsigned[C15]: (= (spec!CompareSpec (a!int #xffffffffffffffff) (a!uint #x0000000000000001)) #xffffffffffffffff)
